@@ -71,7 +71,7 @@ func run(prop, tier, root, verif, tags string, seed int, f props.PropFunc) (code
 			panic(e)
 		}
 	}()
-	p, err := an.Load(an.LoadOpts{Root: root, Whole: tier == "thorough" && props.NeedsWhole[prop], Tags: tags, Overlay: overlay})
+	p, err := an.Load(an.LoadOpts{Root: root, Whole: (tier == "thorough" && props.NeedsWhole[prop]) || props.AlwaysWhole[prop], Tags: tags, Overlay: overlay})
 	if err != nil {
 		r = an.NewReport(prop, tier, nil)
 		r.Undecided("load", "the program must load and type-check", "", err.Error())
